@@ -78,7 +78,7 @@ def IView.dbQCByHeight (v : IView) (h : Nat) : Nat × Bytes := decQC (v.getB (qc
 
 /-! ## `blockCache`: one LRU of 64 block results for the whole process — most recently used first.
 
-Two keyings are modelled. `byHashKey` is the code as it stands (commit fbabcb4): the key is
+Two keyings are modelled. `byHashKey` is the code as it stands (commits fbabcb4, dac697d): the key is
 `string(hashKey)`, the block's hash key, and every reader first resolves `height → hashKey` through its
 OWN view (`t.db.Get(t.blockHeightKey(height))`), answers an absent height from the view without touching
 the cache, and only then consults the cache; header-only results are never cached. `byHeight` is the
@@ -115,7 +115,10 @@ def getBlockByHeight (mode : CacheKeying) (c : Cache) (v : IView) (h : Nat) : Bl
     if hk.isEmpty then (v.getBlock hk true, c)
     else match c.lookup hk with
       | some b => (b, c.touch hk)
-      | none => let b := v.getBlock hk true; (b, c.add hk b)
+      | none =>
+        let b := v.getBlock hk true
+        -- `if !t.hasPendingWrites()`: only blocks read from committed data are cached (commit dac697d)
+        (b, if v.pend.isEmpty then c.add hk b else c)
 
 /-- `GetBlockHeaderByHeight` -/
 def getBlockHeaderByHeight (mode : CacheKeying) (c : Cache) (v : IView) (h : Nat) : BlockRes × Cache :=
